@@ -2,16 +2,123 @@ package main
 
 import (
 	"fmt"
+	"go/ast"
+	"go/parser"
+	"go/token"
+	"os"
+	"os/exec"
+	"path/filepath"
 	"runtime"
+	"strconv"
 	"strings"
 	"unicode"
 )
+
+// xtoolsDir is the source directory of the golang.org/x/tools module the harness (and,
+// through the replace directive, the checked tree) is built with: asked of the go
+// command from inside the harness module, so that a -modfile in GOFLAGS is honoured.
+func xtoolsDir() (string, error) {
+	var cands []string
+	if wd, err := os.Getwd(); err == nil {
+		cands = append(cands, filepath.Join(wd, "harness"), wd)
+	}
+	if exe, err := os.Executable(); err == nil {
+		cands = append(cands, filepath.Join(filepath.Dir(exe), "..", "harness"))
+	}
+	var last error
+	for _, c := range cands {
+		if _, err := os.Stat(filepath.Join(c, "go.mod")); err != nil {
+			continue
+		}
+		cmd := exec.Command("go", "list", "-m", "-f", "{{.Dir}}", "golang.org/x/tools")
+		cmd.Dir = c
+		out, err := cmd.Output()
+		if err == nil && strings.TrimSpace(string(out)) != "" {
+			return strings.TrimSpace(string(out)), nil
+		}
+		last = err
+	}
+	return "", fmt.Errorf("go list -m golang.org/x/tools: %v", last)
+}
+
+// emitXtools reads golang.org/x/tools/txtar/archive.go: the format string of the
+// fmt.Fprintf call in Format, and the three marker constants of that package.
+func (g *gen) emitXtools() {
+	dir, err := xtoolsDir()
+	if err != nil {
+		g.fail("x/tools: %v", err)
+		return
+	}
+	file := filepath.Join(dir, "txtar", "archive.go")
+	f, err := parser.ParseFile(token.NewFileSet(), file, nil, 0)
+	if err != nil {
+		g.fail("x/tools: cannot parse %s: %v", file, err)
+		return
+	}
+	var formats []string
+	vars := map[string]string{}
+	for _, d := range f.Decls {
+		switch d := d.(type) {
+		case *ast.FuncDecl:
+			if d.Name.Name != "Format" || d.Recv != nil || d.Body == nil {
+				continue
+			}
+			ast.Inspect(d.Body, func(n ast.Node) bool {
+				call, ok := n.(*ast.CallExpr)
+				if !ok {
+					return true
+				}
+				sel, ok := call.Fun.(*ast.SelectorExpr)
+				if !ok || sel.Sel.Name != "Fprintf" || len(call.Args) < 2 {
+					return true
+				}
+				if x, ok := sel.X.(*ast.Ident); !ok || x.Name != "fmt" {
+					return true
+				}
+				if lit, ok := call.Args[1].(*ast.BasicLit); ok && lit.Kind == token.STRING {
+					if s, err := strconv.Unquote(lit.Value); err == nil {
+						formats = append(formats, s)
+					}
+				}
+				return true
+			})
+		case *ast.GenDecl:
+			for _, sp := range d.Specs {
+				vs, ok := sp.(*ast.ValueSpec)
+				if !ok {
+					continue
+				}
+				for i, id := range vs.Names {
+					if i < len(vs.Values) {
+						if s, ok := g.str(vs.Values[i]); ok {
+							vars[id.Name] = s
+						}
+					}
+				}
+			}
+		}
+	}
+	if len(formats) != 1 {
+		g.fail("x/tools txtar.Format: expected exactly one fmt.Fprintf with a literal format, found %d", len(formats))
+		return
+	}
+	g.emitBytesLit("xtools_format_string", "golang.org/x/tools/txtar.Format: fmt.Fprintf(&buf, <this>, f.Name)", formats[0])
+	for _, nv := range [][2]string{{"xtools_marker", "marker"}, {"xtools_marker_end", "markerEnd"}, {"xtools_newline_marker", "newlineMarker"}} {
+		s, ok := vars[nv[1]]
+		if !ok {
+			g.fail("x/tools txtar: no string variable %s", nv[1])
+			continue
+		}
+		g.emitBytesLit(nv[0], "golang.org/x/tools/txtar."+nv[1], s)
+	}
+}
 
 func init() {
 	groups["Txtar"] = func(g *gen) {
 		g.emitBytes("marker", "txtar", "marker")
 		g.emitBytes("marker_end", "txtar", "markerEnd")
 		g.emitBytes("newline_marker", "txtar", "newlineMarker")
+		g.emitXtools()
 	}
 	// The white-space tables behind unicode.IsSpace (used by strings.TrimSpace), taken
 	// from the standard library this program is compiled with -- the same toolchain
